@@ -12,7 +12,12 @@ oracle/search : certificate check of EVERY returned result on the implementation
                 spreading pressures at p_i/x_i and the mixing rule, recomputed through the isotherms' own methods; closed forms
                 (Henry, equal-capacity Langmuir); permutation; forward o reverse; wrappers == point calculation PER POINT (fraction vectors that do
                 not sum to one; sweeps in which some points have no solution: the helper returns iff every point returns); the same numbers handed over
-                as ints / tuples / integer and float32 ndarrays / numpy scalars give the result of Python floats (certificate + closed forms)
+                as ints / tuples / integer and float32 ndarrays / numpy scalars give the result of Python floats (certificate + closed forms);
+                point-isotherm OBJECTS WITH A HISTORY (earlier queries with other interpolation kinds / fills / branches / units, inverse queries, spreading
+                pressures with a fill, permanent conversions, an earlier IAST call): every IAST entry point gives what FRESH objects holding the same rows,
+                marks and units give, the result satisfies the IAST equations for the isotherms given by the data (piecewise-linear interpolant and its
+                spreading-pressure integral recomputed from the rows without the objects' query methods), and a default query on the used object returns the
+                piecewise-linear interpolant of Iast/PointPL.v executed inside Coq (refused outside the measured range)
 """
 import itertools
 import math
@@ -42,7 +47,10 @@ MANIFEST = dict(
          "equations through the isotherms' own spreading_pressure_at / loading_at (certificate check), together with the closed forms, "
          "permutation, forward/reverse and wrapper clauses, and by repeating calls with the same numbers in other numeric types (Python ints, "
          "tuples, int16/32/64 and float32 arrays, numpy scalars for partial pressures, total pressure, fractions): same result as with Python floats, "
-         "certificate and closed forms included. The model is tied to the code by executing it (QNum) beside the implementation "
+         "certificate and closed forms included. (iv) the isotherm GIVEN BY THE DATA of a point isotherm is the piecewise-linear interpolant of its rows (Iast/PointPL.v): it passes "
+         "through the measured points, is monotone between two of them when they are, and stays within the bounds of the measured loadings (no overshoot); it is executed "
+         "(QNum) beside loading_at on objects with a history of other queries, and IAST on such objects is compared with IAST on fresh objects holding the same rows. "
+         "The model is tied to the code by executing it (QNum) beside the implementation "
          "on every generated call. Not modelled: exceptions raised inside isotherm methods while the solver iterates, logging, user guesses "
          "rejected by assert_almost_equal, numpy's inf/nan arithmetic at a zero fraction.",
     note="Trusted: Coq kernel; Reals axioms as printed by Print Assumptions; the hand-written model Iast/IastGlue.v (validated by the per-call "
@@ -52,7 +60,7 @@ MANIFEST = dict(
     technique="Coq proof of solver glue + consequences of the solver post-condition; certificate checking of actual outputs; model/code correspondence")
 
 HEADER = """From Coq Require Import QArith ZArith String List.
-From PG Require Import Lib.Num Lib.Py Lib.Show Iast.IastGlue Iast.IastShow.
+From PG Require Import Lib.Num Lib.Py Lib.Show Iast.IastGlue Iast.IastShow Iast.PointPLShow.
 Import ListNotations. Open Scope string_scope. Open Scope Z_scope.
 """
 ALL_MODELS = ["Henry", "Langmuir", "DSLangmuir", "TSLangmuir", "BET", "GAB", "Freundlich", "DA", "DR", "Quadratic", "TemkinApprox",
@@ -95,11 +103,148 @@ def make_iso(spec):
         m = get_isotherm_model(name, **kw)
         return pygaps.ModelIsotherm(model=m, material='verif_m', adsorbate='N2', temperature=300, pressure_mode=mode,
                                     pressure_unit='bar' if mode == 'absolute' else None)
-    _, name, params, npts, pmax = spec
+    name, params, npts, pmax = spec[1:5]
     m = get_isotherm_model(name, parameters=params)
     p = np.geomspace(pmax * 1e-4, pmax, npts)
-    return pygaps.PointIsotherm(pressure=list(p), loading=[float(m.loading(x)) for x in p], material='verif_m', adsorbate='N2',
+    l = [float(m.loading(x)) for x in p]
+    if spec[0] == 'point2':          # measured with a desorption run (higher loadings: hysteresis), marks given
+        pd_ = np.geomspace(pmax * 0.9, pmax * 1e-3, spec[5])
+        ld = [float(m.loading(x)) * (1.0 + 0.3 * (1 - x / pmax)) for x in pd_]
+        return pygaps.PointIsotherm(pressure=list(p) + list(pd_), loading=l + ld, branch=[False] * len(p) + [True] * len(pd_), material='verif_m', adsorbate='N2',
+                                    temperature=300, pressure_mode='absolute', pressure_unit='bar')
+    return pygaps.PointIsotherm(pressure=list(p), loading=l, material='verif_m', adsorbate='N2',
                                 temperature=300, pressure_mode='absolute', pressure_unit='bar')
+
+
+INTERP_KINDS = ['cubic', 'quadratic', 'nearest', 'zero', 'slinear', 'linear']
+
+
+def random_history(rnd, spec, n_ops):
+    """what a user may have done with a point isotherm before handing it to IAST: queries with other interpolation kinds / fills / branches / units,
+    inverse queries, spreading pressures with a fill, permanent unit conversions (there and back, or staying). json-able list of operations"""
+    ops = []
+    menu = ['kind', 'kind', 'kind', 'fill', 'units', 'pressure_at', 'spreading', 'convert-roundtrip', 'convert-loading', 'linear-then-kind', 'kind-fill']
+    if spec[0] == 'point2':
+        menu += ['branch', 'branch-kind']
+    for _ in range(n_ops):
+        w = rnd.choice(menu)
+        f = rnd.uniform(0.02, 0.9)       # where in the measured range the query lies
+        kind = rnd.choice(INTERP_KINDS[:5])
+        if w == 'kind':
+            ops.append(['loading_at', f, {'interpolation_type': kind}])
+        elif w == 'fill':
+            ops.append(['loading_at', f, {'interp_fill': rnd.choice(['extrapolate', 0.0, 7.5])}])
+        elif w == 'kind-fill':
+            ops.append(['loading_at', f, {'interpolation_type': kind, 'interp_fill': 'extrapolate'}])
+        elif w == 'units':
+            ops.append(['loading_at', f, rnd.choice([{'pressure_unit': 'kPa', 'pressure_mode': 'absolute'}, {'loading_unit': 'mol'}, {'material_unit': 'kg'},
+                                                     {'loading_basis': 'mass', 'loading_unit': 'mg', 'interpolation_type': kind}])])
+        elif w == 'pressure_at':
+            ops.append(['pressure_at', f, {'interpolation_type': kind} if rnd.random() < 0.7 else {}])
+        elif w == 'spreading':
+            ops.append(['spreading_pressure_at', f, {'interp_fill': rnd.choice(['extrapolate', 5.0])} if rnd.random() < 0.6 else {}])
+        elif w == 'convert-roundtrip':
+            u = rnd.choice(['kPa', 'torr', 'Pa'])
+            ops.append(['convert_pressure', None, {'unit_to': u}])
+            if rnd.random() < 0.6:
+                ops.append(['loading_at', f, {'interpolation_type': kind}])
+            ops.append(['convert_pressure', None, {'unit_to': 'bar'}])
+        elif w == 'convert-loading':
+            ops.append(['convert_loading', None, {'unit_to': rnd.choice(['mol', 'mmol'])}])
+            if rnd.random() < 0.5:
+                ops.append(['loading_at', f, {'interpolation_type': kind}])
+        elif w == 'linear-then-kind':
+            ops.append(['loading_at', f, {}])
+            ops.append(['loading_at', f, {'interpolation_type': kind}])
+        elif w == 'branch':
+            ops.append(['loading_at', f, {'branch': 'des'}])
+        elif w == 'branch-kind':
+            ops.append(['loading_at', f, {'branch': 'des', 'interpolation_type': kind}])
+    return ops
+
+
+def apply_history(iso, ops):
+    """run the operations on the object (outcomes are not judged here: a refused query is part of the history too). -> list of outcome classes"""
+    import pygaps
+    out = []
+    if not isinstance(iso, pygaps.PointIsotherm):
+        return out
+    for name, f, kw in ops:
+        kw = dict(kw)
+        if isinstance(kw.get('interp_fill'), list):
+            kw['interp_fill'] = tuple(kw['interp_fill'])
+        br = kw.get('branch', 'ads')
+        if name in ('loading_at', 'spreading_pressure_at'):
+            ps = np.asarray(iso.pressure(branch=br, pressure_unit=kw.get('pressure_unit'), pressure_mode=kw.get('pressure_mode')), dtype=float)
+            x = float(ps.min() + f * (ps.max() - ps.min()))
+            out.append(call(getattr(iso, name), x, **kw)[0])
+        elif name == 'pressure_at':
+            ls = np.asarray(iso.loading(branch=br), dtype=float)
+            out.append(call(iso.pressure_at, float(ls.min() + f * (ls.max() - ls.min())), **kw)[0])
+        else:
+            out.append(call(getattr(iso, name), **kw)[0])
+    return out
+
+
+def fresh_twin(iso):
+    """a NEW object holding what the given isotherm holds now (same rows, marks, units, metadata) and nothing else: no query was ever made on it"""
+    import pygaps
+    if not isinstance(iso, pygaps.PointIsotherm):
+        return iso          # model isotherms hold parameters only (no interpolators); they get no history here
+    return pygaps.PointIsotherm(pressure=[float(v) for v in iso.pressure()], loading=[float(v) for v in iso.loading()],
+                                branch=[bool(v) for v in iso.data_raw['branch']], material='verif_m', adsorbate='N2', temperature=float(iso.temperature),
+                                temperature_unit=iso.temperature_unit, pressure_mode=iso.pressure_mode, pressure_unit=iso.pressure_unit, loading_basis=iso.loading_basis,
+                                loading_unit=iso.loading_unit, material_basis=iso.material_basis, material_unit=iso.material_unit)
+
+
+def pl_pure(iso, p):
+    """the pure-component isotherm GIVEN BY THE DATA of a point isotherm, recomputed without any of its query methods: loading = piecewise-linear
+    interpolant of the adsorption rows (numpy.interp), spreading pressure = integral of n(p)/p over that interpolant with Henry's law below the first
+    point. -> (loading, spreading pressure) | None outside the measured range"""
+    P = np.asarray(iso.pressure(branch='ads'), dtype=float)
+    L = np.asarray(iso.loading(branch='ads'), dtype=float)
+    if not (np.all(np.diff(P) > 0) and P[0] <= p <= P[-1]):
+        return None
+    n = float(np.interp(p, P, L))
+    area = float(L[0])                      # integral of (L0/P0) p / p from 0 to P0
+    for i in range(len(P) - 1):
+        hi = min(p, P[i + 1])
+        if hi <= P[i]:
+            break
+        slope = (L[i + 1] - L[i]) / (P[i + 1] - P[i])
+        icpt = L[i] - slope * P[i]
+        area += slope * (hi - P[i]) + icpt * math.log(hi / P[i])
+    return n, area
+
+
+def pl_certificate(isos, p0, xs, loadings):
+    """the IAST equations for the isotherms GIVEN BY THE DATA (point isotherms: pl_pure; model isotherms: their own methods). -> (None | failed clause, detail)"""
+    import pygaps
+    xs = [float(x) for x in xs]
+    if min(xs) <= 0:
+        return None, 'zero fraction'
+    sp, ld = [], []
+    for i, p, x in zip(isos, p0, xs):
+        if isinstance(i, pygaps.PointIsotherm):
+            v = pl_pure(i, p / x)
+            if v is None:
+                return None, 'outside the measured range'
+            ld.append(v[0]); sp.append(v[1])
+        else:
+            a, b = pure(i, 'ld', p / x), pure(i, 'sp', p / x)
+            if a is None or b is None:
+                return None, 'pure-component value unavailable'
+            ld.append(a); sp.append(b)
+    if any(v == 0 for v in ld):
+        return None, 'zero loading'
+    scale = max(abs(v) for v in sp)
+    if scale > 0 and (max(sp) - min(sp)) > RTOL_SP * scale:
+        return 'unequal-spreading-pressure', {'spreading_pressures_of_the_piecewise_linear_isotherms': sp, 'fractions': xs}
+    inv = sum(x / l for x, l in zip(xs, ld))
+    tot = float(sum(loadings))
+    if abs(tot * inv - 1.0) > 1e-8:
+        return 'mixing-rule', {'n_total': tot, 'sum x_i/n0_i (piecewise-linear isotherms)': inv}
+    return None, {'sp': sp, 'ld': ld}
 
 
 def rspec(rnd, point_ok=True):
@@ -238,6 +383,32 @@ def gen(tier, seed):
         tgt = rw.choice([0.5, 0.9, 0.99, 1.01, 1.1, 2.0])
         C.append(dict(kind='svp', specs=specs, y=[v / sum(raw) * tgt for v in raw], Ps=sorted(lu(rw, 0.05, 20) for _ in range(rw.randint(2, 4))), guess=None,
                       sweep='fractions-not-normalised'))
+    # H: point-isotherm OBJECTS WITH A HISTORY: before the IAST call the same objects were queried with other interpolation kinds / fills / branches /
+    #    units, inverted, converted for good or there and back, or used in an earlier IAST call. The calculation must give what FRESH twins (new objects
+    #    holding the same rows, marks and units) give, and satisfy the IAST equations for the isotherms given by the data (piecewise linear)
+    rh = random.Random(seed * 15485863 + 7)
+    fns = ['point', 'reverse', 'fraction', 'point', 'svp', 'vle']
+    for i in range(360 if big else 54):
+        fn = fns[i % len(fns)]
+        n = 2 if fn in ('svp', 'vle') else rh.choice([2, 2, 3])
+        pm_common = lu(rh, 50, 1500)
+        specs = []
+        for j in range(n):
+            if rh.random() < 0.8 or (j == n - 1 and all(s_[0] == 'model' for s_ in specs)):
+                fam = rh.choice(['Langmuir', 'DSLangmuir', 'Toth'])
+                base = ('point', fam, rparams(rh, fam), rh.choice([10, 14, 20, 30]), pm_common if fn == 'vle' else lu(rh, 50, 1500))
+                specs.append(base if rh.random() < 0.65 else ('point2',) + base[1:] + (rh.choice([6, 9, 12]),))
+            else:
+                specs.append(rspec(rh, point_ok=False))
+        hist = [random_history(rh, s_, rh.randint(1, 3)) if s_[0] != 'model' else [] for s_ in specs]
+        # pressures inside the measured range of every point isotherm (rows from pmax * 1e-4 to pmax)
+        pms = [s_[4] for s_ in specs if s_[0] != 'model']
+        lo, hi = 5e-4 * max(pms), 0.05 * min(pms)
+        cuts = sorted(rh.sample(range(64, 960), n - 1))
+        fr = [(b - a) / 1024.0 for a, b in zip([0] + cuts, cuts + [1024])]
+        C.append(dict(kind='history', fn=fn, specs=specs, history=hist, earlier_iast=rh.random() < 0.3, iast_first=rh.random() < 0.5, p=[lu(rh, lo, hi) for _ in range(n)],
+                      x=fr, P=hi * rh.uniform(0.6, 1.0) if fn == 'vle' else lu(rh, 16 * lo, 4 * hi), Ps=sorted(lu(rh, 16 * lo, 4 * hi) for _ in range(rh.randint(2, 4))),
+                      npoints=rh.choice([3, 5])))
     # F: guards: every model name (whitelist), relative pressure, one component, wrong number of pressures, wrapper argument checks
     for name in ALL_MODELS:
         for fn in ('point', 'reverse'):
@@ -383,7 +554,7 @@ def jsonable(case):
     return {k: (v if not isinstance(v, tuple) else list(v)) for k, v in case.items()}
 
 
-EXTRA_TARGETS = ['Iast/IastShow.vo', 'Iast/IastExamples.vo']
+EXTRA_TARGETS = ['Iast/IastShow.vo', 'Iast/IastExamples.vo', 'Iast/PointPLShow.vo']
 
 
 def run(rep, tier, seed):
@@ -589,6 +760,77 @@ def _explore(rep, tier, cases, pg, proxy):
                 fail(case, 'forward-reverse', 'reverse_iast gave y=%r, n=%r but iast_point at P*y gives %r' % (ys, list(nr), list(out2)), xs=xs2, extra=[float(v) for v in out2])
             elif oc2 == 'Ok':
                 nontrivial.add(('fr', tuple(s[1] for s in specs), round(P, 3)))
+        elif kind == 'history':
+            n_eval += 1
+            fn = case['fn']
+            n = len(isos)
+            if case.get('earlier_iast') and case.get('iast_first'):
+                call(pg.iast_point, isos, [v * 0.5 for v in case['p']], warningoff=True)
+            outcomes = [apply_history(i, h) for i, h in zip(isos, case['history'])]
+            if case.get('earlier_iast') and not case.get('iast_first'):
+                call(pg.iast_point, isos, [v * 0.5 for v in case['p']], warningoff=True)       # an earlier calculation on the same objects, then more queries
+                outcomes = [o + apply_history(i, [op for op in h if op[0] in ('loading_at', 'pressure_at')][:1]) for o, i, h in zip(outcomes, isos, case['history'])]
+            twins = [fresh_twin(i) for i in isos]
+            unit_f = [1.0 if s_[0] == 'model' else float(np.max(np.asarray(i.pressure(branch='ads'), dtype=float))) / s_[4] for s_, i in zip(specs, isos)]
+            pp = [float(v * f) for v, f in zip(case['p'], unit_f)]              # partial pressures in the unit each isotherm is in NOW
+
+            def run_on(objs):
+                if fn == 'point':
+                    return call(pg.iast_point, objs, list(pp), warningoff=True)
+                if fn == 'reverse':
+                    return call(pg.reverse_iast, objs, list(case['x']), case['P'] * unit_f[0], warningoff=True)
+                if fn == 'fraction':
+                    return call(pg.iast_point_fraction, objs, list(case['x']), case['P'] * unit_f[0], warningoff=True)
+                if fn == 'svp':
+                    return call(pg.iast_binary_svp, objs, list(case['x']), [v * unit_f[0] for v in case['Ps']], warningoff=True)
+                return call(pg.iast_binary_vle, objs, case['P'] * unit_f[0], npoints=case['npoints'], warningoff=True)
+            a = run_on(isos)
+            b = run_on(twins)
+            note('history-%s/%s' % (fn, a[0]))
+            # Coq: after all that, a query with the default arguments on the used object must return the piecewise-linear interpolant of its adsorption rows
+            # (Iast/PointPL.v executed on QNum), and be refused outside the measured range
+            for s_, i in zip(specs, isos):
+                if s_[0] == 'model':
+                    continue
+                Pa, La = np.asarray(i.pressure(branch='ads'), dtype=float), np.asarray(i.loading(branch='ads'), dtype=float)
+                qs = []
+                for q_ in [Pa[0], Pa[-1], Pa[0] + 0.13 * (Pa[-1] - Pa[0]), math.sqrt(Pa[0] * Pa[-1]), Pa[0] * 1.7, 0.5 * (Pa[3] + Pa[4]), Pa[-1] * 1.5, Pa[0] * 0.5]:
+                    o_, v_ = call(i.loading_at, float(q_))
+                    if o_ == 'Ok' and not math.isfinite(float(v_)):
+                        continue
+                    qs.append('(%s, %d, %s)' % (zme(q_), 0 if o_ == 'Ok' else 1, zme(float(v_)) if o_ == 'Ok' else '(0, 0)'))
+                terms.append('cmp_pl [%s] [%s]' % ('; '.join('(%s, %s)' % (zme(u), zme(v)) for u, v in zip(Pa, La)), '; '.join(qs)))
+                term_case.append((case, 'history-default-query-is-piecewise-linear'))
+            pick = {'point': lambda o: [o], 'fraction': lambda o: [o], 'reverse': lambda o: [o[0], o[1]], 'svp': lambda o: [o['selectivity']],
+                    'vle': lambda o: [o['x'], o['y']]}[fn]
+            flat = lambda o: [[float(v) for v in np.atleast_1d(u)] for u in pick(o)]
+            if a[0] != b[0] or (a[0] == 'Ok' and not all(close_n(u, v) and np.allclose(u, v, rtol=1e-7, atol=0, equal_nan=True) for u, v in zip(pick(a[1]), pick(b[1])))):
+                fail(case, 'object-history', '%s on point isotherms that were used before (%r) gives %s %r; fresh objects holding the same rows, marks and units give %s %r' % (
+                    fn, case['history'], a[0], flat(a[1]) if a[0] == 'Ok' else None, b[0], flat(b[1]) if b[0] == 'Ok' else None),
+                    extra={'with_history': flat(a[1]) if a[0] == 'Ok' else a[0], 'fresh': flat(b[1]) if b[0] == 'Ok' else b[0], 'history_outcomes': outcomes})
+                continue
+            if a[0] != 'Ok':
+                continue
+            # the IAST equations for the isotherms given by the data, recomputed without the query methods of the used objects
+            if fn in ('point', 'fraction', 'reverse'):
+                if fn == 'reverse':
+                    ys, nr = [float(v) for v in a[1][0]], np.array(a[1][1], dtype=float)
+                    p_eq, out = [case['P'] * unit_f[0] * y for y in ys], nr
+                else:
+                    p_eq = pp if fn == 'point' else [float(v) * case['P'] * unit_f[0] for v in case['x']]
+                    out = np.array(a[1], dtype=float)
+                tot = float(out.sum())
+                xs = [float(v) / tot for v in out] if tot != 0 and math.isfinite(tot) else None
+                if xs is not None and min(xs) >= TRACE:
+                    same_units = all(abs(f - 1.0) < 1e-9 for f in unit_f) or fn == 'point'
+                    ck, det = pl_certificate(isos, p_eq, xs, out) if same_units else (None, None)
+                    if not ck and same_units:
+                        ck, det = certificate([fresh_twin(i) for i in isos], p_eq, xs, out)
+                    if ck:
+                        fail(case, 'history-' + ck, '%s on point isotherms used before (%r) returned %r which violate the IAST equations for the isotherms given by the data '
+                             '(piecewise linear between the measured points): %s %r' % (fn, case['history'], flat(a[1]), ck, det), xs=xs, extra={'returned': flat(a[1]), 'detail': det})
+                        continue
+            nontrivial.add(('history', fn, tuple(s_[1] for s_ in specs), tuple(tuple(op[0] + ':' + ','.join('%s=%s' % kv for kv in sorted(op[2].items())) for op in h) for h in case['history'])))
         elif kind == 'types':
             pf = [float(v) for v in case['p']]
             oc, out, xs = point_call(case, isos, specs, pf, None, 'types-float')
@@ -859,10 +1101,15 @@ def _explore(rep, tier, cases, pg, proxy):
                              'point isotherms measured up to 1-45 bar with pressures on both sides of that limit (some points without a solution), increasing and '
                              'arbitrary order, default and user guesses; all 16 model names x guards; whole-number '
                              'partial / total pressures and dyadic fractions in 9 numeric representations (int list, tuple, int16/32/64 arrays, numpy int scalars, '
-                             'float32 array / scalars, float64 array, mixed int-float list) for iast_point, iast_point_fraction, reverse_iast, iast_binary_svp / vle')
+                             'float32 array / scalars, float64 array, mixed int-float list) for iast_point, iast_point_fraction, reverse_iast, iast_binary_svp / vle; '
+                             'point isotherms (10-30 rows over four decades, a third with a marked desorption run) carrying a history of 1-3 operations each (loading_at with '
+                             'cubic / quadratic / nearest / zero / slinear, fills, the other branch, other units; pressure_at; spreading_pressure_at with a fill; pressure unit '
+                             'there and back; loading unit for good; linear then another kind; an earlier IAST call before or after) x iast_point / reverse_iast / '
+                             'iast_point_fraction / iast_binary_svp / iast_binary_vle with pressures inside the measured ranges')
     rep.cov['correspondence'] = {'calls_compared_in_coq': len(terms), 'disagreements': n_dis, 'tolerance_rel': 1e-9,
                                  'what': 'IastGlue (QNum) vs pgiast: outcome class, start vector, residual at the returned point vs the code\'s closure, returned values; '
-                                         'the helpers: the GENERATED definitions (Gen/IastWrapGen.v, QNum) over a table of what iast_point returned / raised per point'}
+                                         'the helpers: the GENERATED definitions (Gen/IastWrapGen.v, QNum) over a table of what iast_point returned / raised per point; '
+                                         'default loading_at on point isotherms with a history vs the piecewise-linear interpolant Iast/PointPL.v (8 queries per object, two outside the range)'}
     rep.cov['certificate'] = {'rtol_spreading_pressure': RTOL_SP, 'rtol_loading_of_total': RTOL_N, 'worst_relative_spread_accepted': worst['sp_rel'],
                               'worst_root_residual_rel_when_success': worst['root_resid_rel']}
     rep.cov['samples'] += [{'case': jsonable(c)} for c in (cases[0], cases[len(cases) // 3], cases[-1])]
@@ -894,6 +1141,28 @@ def replay(d):
         print('reverse_iast(x=%r, P=%r) ->' % (r['x'], r['P']), oc, out)
         if oc == 'Ok':
             print('certificate:', certificate(isos, [r['P'] * y for y in out[0]], r['x'], out[1]))
+    elif kind == 'history':
+        fn = r['fn']
+        def run_on(objs):
+            if fn == 'point':
+                return call(pg.iast_point, objs, list(r['p']), warningoff=True)
+            if fn == 'reverse':
+                return call(pg.reverse_iast, objs, list(r['x']), r['P'], warningoff=True)
+            if fn == 'fraction':
+                return call(pg.iast_point_fraction, objs, list(r['x']), r['P'], warningoff=True)
+            if fn == 'svp':
+                return call(pg.iast_binary_svp, objs, list(r['x']), list(r['Ps']), warningoff=True)
+            return call(pg.iast_binary_vle, objs, r['P'], npoints=r['npoints'], warningoff=True)
+        if r.get('earlier_iast') and r.get('iast_first'):
+            call(pg.iast_point, isos, [v * 0.5 for v in r['p']], warningoff=True)
+        for i, h in zip(isos, r['history']):
+            print('history of', i.adsorbate, ':', h, '->', apply_history(i, h))
+        if r.get('earlier_iast') and not r.get('iast_first'):
+            call(pg.iast_point, isos, [v * 0.5 for v in r['p']], warningoff=True)
+            for i, h in zip(isos, r['history']):
+                apply_history(i, [op for op in h if op[0] in ('loading_at', 'pressure_at')][:1])
+        print(fn, 'on the objects with that history ->', run_on(isos))
+        print(fn, 'on fresh objects holding the same rows ->', run_on([fresh_twin(i) for i in isos]))
     elif kind == 'types-wrappers':
         vn = r.get('variant', 'int-list')
         xa, Pa = TYPE_VARIANTS[vn](r['x']), SCALAR_VARIANTS[vn](r['P'])
